@@ -341,7 +341,59 @@ def _is_ipynb_test(test, p_path):
     return None
 
 
+
+BROAD_OS_ERRORS = {'IOError', 'OSError', 'EnvironmentError', 'Exception', 'BaseException'}
+
+
+def worktree_streams(ctx, rule_a, rule_b):
+    """R17.8: a notebook git reports as deleted from the working tree is mapped to the null file whatever the reason open() fails
+    (ENOENT, but also ENOTDIR when a parent became a file, EISDIR when the path became a directory): the handler around the
+    working-tree open must catch OSError/IOError, not a subclass.
+    R17.9: every entry gets its own stream object: a StringIO has one read position and one name, so a stream handed out for
+    one entry must not be handed out again (same blob on both sides of a rename, identical notebooks in two entries)."""
+    repo = ctx.repo
+    fn = repo.func(GF + ':_get_diff_entry_stream')
+    opens = [c for c in calls_in(fn, nested=False) if dotted(c.func) in ('io.open', 'open')]
+    if not opens:
+        raise AnalysisError('_get_diff_entry_stream: working-tree open() not found')
+    for c in opens:
+        tr = repo.parent(repo.stmt_of(c))
+        while tr is not None and not isinstance(tr, ast.Try):
+            tr = repo.parent(tr)
+        if tr is None:
+            ctx.inst(rule_a, GF + ':_get_diff_entry_stream', repo.norm(c), False, 'the working-tree open is not inside a try: a deleted notebook aborts the listing', c)
+            continue
+        names = []
+        for h in tr.handlers:
+            if h.type is None:
+                names.append('BaseException')
+            else:
+                names += [dotted(e) for e in (h.type.elts if isinstance(h.type, ast.Tuple) else [h.type])]
+        ok = bool(set(names) & BROAD_OS_ERRORS)
+        ctx.inst(rule_a, GF + ':_get_diff_entry_stream', 'open(...) except %s' % names, ok,
+                 'any failure to open the working-tree file is treated as "deleted from the working tree"' if ok else
+                 'only %s is caught: a path whose parent became a file (ENOTDIR) or that became a directory (EISDIR) is reported by git as deleted but makes '
+                 'changed_notebooks raise, and the remaining entries are never examined' % names, c)
+    defs = local_defs(fn)
+    rets = [r for r in walk_no_nested(fn) if isinstance(r, ast.Return) and isinstance(r.value, ast.Name)]
+    n = 0
+    for r in rets:
+        ds = [v for v, k, st in defs.get(r.value.id, []) if k == 'assign']
+        if not ds:
+            continue
+        n += 1
+        fresh = all(isinstance(v, ast.Call) and not (isinstance(v.func, ast.Attribute) and v.func.attr in ('get', 'pop', 'setdefault')) for v in ds)
+        bad = next((v for v in ds if not (isinstance(v, ast.Call) and not (isinstance(v.func, ast.Attribute) and v.func.attr in ('get', 'pop', 'setdefault')))), None)
+        ctx.inst(rule_b, GF + ':_get_diff_entry_stream', 'return %s  <- %s' % (r.value.id, [ast.unparse(v)[:50] for v in ds]), fresh,
+                 'the stream returned is created by this very call' if fresh else
+                 'the stream can come from a container shared between entries (%s): two entries with the same blob get ONE stream object -- one read position, '
+                 'one .name -- so a pure rename yields (f, f) and the second read returns nothing' % ast.unparse(bad)[:50], r)
+    if n == 0:
+        raise AnalysisError('_get_diff_entry_stream: no returned stream variable found')
+
 def run(ctx):
+    ctx.rule('R17.8', 'a working-tree file that cannot be opened is a deletion whatever errno says: the handler catches OSError/IOError, not a subclass', floor=1)
+    ctx.rule('R17.9', 'every diff entry gets a stream object created for it (no stream is shared between entries)', floor=1)
     ctx.rule('R17.7', 'name binding: every global name a function refers to is bound at module level or builtin, and every local is assigned on every path before it is read', floor=2)
     ctx.rule('R17.6', 'every exactly resolved call binds against its callee\'s signature (no missing/unknown/surplus argument on any arm)', floor=1)
     _run_base(ctx)
@@ -349,3 +401,4 @@ def run(ctx):
     call_compat(ctx, 'R17.6', ['nbdime.gitfiles', 'nbdime.vcs.git.filter_integration'], 'diffing git revisions aborts')
     from ..names import name_binding
     name_binding(ctx, 'R17.7', ['nbdime.gitfiles', 'nbdime.vcs.git.filter_integration'])
+    worktree_streams(ctx, 'R17.8', 'R17.9')
